@@ -359,7 +359,11 @@ def run(prop, tier, replay=None):
 
     wires = {i: schema_to_wire(sd[i]["ok"]) for i in range(len(descs)) if "ok" in sd[i]}
     # a quarter of the schemas are handed to encode()/decode() as an AST whose field lists were shuffled after parsing
-    shuf = {i: rng.randint(1, 10 ** 6) for i in range(len(descs)) if rng.random() < 0.25}
+    # (not those with two fields of one id: among equal ids the order of the field list is the wire order)
+    def dup_ids(d):
+        return any(len({f[1] for f in fs}) != len(fs) for _, fs in d.structs)
+    shuf = {i: rng.randint(1, 10 ** 6) for i in range(len(descs)) if rng.random() < 0.25 and not dup_ids(descs[i])}
+    rep.cov["schemas_with_duplicate_field_ids"] = sum(1 for d in descs if dup_ids(d))
     rep.cov["ast_shuffled_schemas"] = len(shuf)
 
     # phase A: implementation encode
@@ -593,6 +597,8 @@ def run(prop, tier, replay=None):
                            "what": "_Buffer and the Lean Buf model disagree on an operation sequence"}, no_input=True)
 
     check_utf8(rep, rng, tier)
+    if prop in ("C01", "C02"):
+        check_long_messages(rep, rng, tier)
     if prop == "C02":
         check_vectors(rep)
     if prop == "C16":
@@ -611,6 +617,73 @@ def run(prop, tier, replay=None):
         "struct values are compared positionally in ascending field id",
     ]
     return rep.finish()
+
+
+def check_long_messages(rep, rng, tier):
+    """messages of one to several KiB with fields narrower than a byte before and inside the long part: encoder output against
+    the canonical bytes of the specification (the transliterated `_Buffer` model is quadratic and left out: `no_py`), decoder on
+    those bytes against the value"""
+    descs, jobs = [], []
+    for k in range(6 if tier == "quick" else 40):
+        d = gen.Desc()
+        d.enums = [("L", [("LA", 0), ("LB", 2), ("LC", 5)])]
+        el = rng.choice([("u", 3), ("i", 13), ("enum", "L"), ("u", 1), ("u", 8), ("opt", ("u", 5))])
+        pad = rng.choice([0, 1, 3, 7])
+        d.structs.append(("In", [("a", 0, ("u", 5)), ("b", 1, el)]))
+        fs = ([("p", 0, ("u", pad))] if pad else []) + [("xs", 1, ("dyn", el)), ("s", 2, ("str",)),
+                                                         ("ys", 3, ("dyn", ("struct", "In"))), ("q", 4, ("u", 3))]
+        d.structs.append(("Long", fs))
+        n1, n2, n3 = rng.choice([(3000, 0, 0), (0, 1500, 0), (0, 0, 900), (2500, 1100, 300), (20000, 10, 3)])
+
+        def elv():
+            v = gen.gen_value(rng, d, el, False)[0]
+            # the signed minimum is the recorded finding signed-min (C01/C02): not what this family is about
+            return v + 1 if el[0] == "i" and v == -(1 << (el[1] - 1)) else v
+        py = {"xs": [elv() for _ in range(n1)], "s": "".join(chr(rng.randint(32, 126)) for _ in range(n2)),
+              "ys": [{"a": rng.getrandbits(5), "b": elv()} for _ in range(n3)], "q": 5}
+        if pad:
+            py["p"] = (1 << pad) - 1
+        descs.append(d)
+        jobs.append((len(descs) - 1, "Long", py, gen.to_model(d, ("struct", "Long"), py)))
+    texts = [d.text() for d in descs]
+    sd = run_cases("harness.codec", "w_schema_dict", [{"text": t} for t in texts], timeout_s=20)
+    wires = [schema_to_wire(x["ok"]) for x in sd]
+    enc = run_cases("harness.codec", "w_encode", [{"text": texts[i], "struct": n, "value": py} for i, n, py, mv in jobs], timeout_s=60)
+    model = run_codec_grouped([(wires[i], n, {"value": mv, "no_py": True}) for i, n, py, mv in jobs])
+    dec_in = []
+    for (i, n, py, mv), e, m in zip(jobs, enc, model):
+        rep.cov["evaluations"] += 1
+        spec = m.get("spec_bytes")
+        if not m.get("wf") or spec is None:
+            rep.hist("harness_problem", "long message not taken by the model")
+            dec_in.append(None)
+            continue
+        rep.hist("long_message_bytes", "%d KiB" % (len(spec) // 1024))
+        dec_in.append(spec)
+        if e.get("ok") != spec:
+            rep.cov["disagreements_checked"] += 1
+            ob = e.get("ok") or []
+            k = next((k for k in range(min(len(ob), len(spec))) if ob[k] != spec[k]), min(len(ob), len(spec)))
+            rep.violation({"kind": "encode-bytes-long", "schema": texts[i], "struct": n, "py_value_sizes": [len(py["xs"]), len(py["s"]), len(py["ys"])],
+                           "value": mv, "observed_len": len(ob), "expected_len": len(spec), "first_difference_at_byte": k,
+                           "observed": ob[max(0, k - 4):k + 8] if ob else e, "expected": spec[max(0, k - 4):k + 8],
+                           "what": "encoder output of a long message differs from the canonical wire encoding"})
+    dres = run_cases("harness.codec", "w_decode", [{"text": texts[i], "struct": n, "bytes": bs or [], "cap": 10_000_000}
+                                                   for (i, n, py, mv), bs in zip(jobs, dec_in)], timeout_s=60)
+    for (i, n, py, mv), bs, r in zip(jobs, dec_in, dres):
+        if bs is None:
+            continue
+        rep.cov["evaluations"] += 1
+        cls, val = canon_impl_result(r)
+        try:
+            got = gen.to_model(descs[i], ("struct", n), val) if cls == "value" else None
+        except Exception:
+            got = None
+        if got != mv:
+            rep.cov["disagreements_checked"] += 1
+            rep.violation({"kind": "decode-long", "schema": texts[i], "struct": n, "value": mv, "bytes": bs,
+                           "observed": cls if cls != "value" else "another value",
+                           "what": "decoder does not recover a long value from its canonical encoding"})
 
 
 def check_utf8(rep, rng, tier):
